@@ -1244,6 +1244,7 @@ struct ll_world_base : pworld_base
     std::ptrdiff_t start = 0;
     long           atomic_points = 0;
     virtual std::ptrdiff_t balance() = 0;
+    virtual void           extra_judge(std::vector<violation>&) {}
 };
 // op 0: own allocator object (they are all the same stateless thing); op 1: through ONE shared thread_safe_allocator
 template <class K>
@@ -1290,9 +1291,113 @@ struct ll_world : ll_world_base
         }
     }
 };
-static const char* const LL_KINDS[] = {"heap_allocator", "malloc_allocator", "new_allocator", "virtual_memory_allocator"};
+//=== the library's five process-wide handler registries (src/error.cpp, src/debugging.cpp compiled with the atomic shim) ===//
+// Concurrent registrations: every set_*_handler() returns the handler it replaced. With n threads registering n different
+// handlers on top of a known base handler, the n returned values plus the handler installed at the end are a permutation of
+// {base, h1..hn} in every schedule (an exchange); a load followed by a store hands the same previous handler to two threads
+// and loses a registered handler.
+#include <foonathan/memory/debugging.hpp>
+#include <foonathan/memory/error.hpp>
+template <int I> static void hr_oom(const fm::allocator_info&, std::size_t) {}
+template <int I> static void hr_bad(const fm::allocator_info&, std::size_t, std::size_t) {}
+template <int I> static void hr_leak(const fm::allocator_info&, std::ptrdiff_t) {}
+template <int I> static void hr_ptr(const fm::allocator_info&, const void*) {}
+template <int I> static void hr_ovf(const void*, std::size_t, const void*) {}
+static const char* const HR_NAMES[] = {"out_of_memory", "bad_allocation_size", "leak", "invalid_pointer", "buffer_overflow"};
+typedef void (*hr_any)();
+static hr_any hr_handler(int reg, int i)
+{
+#define HR_PICK(F) (i == 0 ? (hr_any)F<0> : i == 1 ? (hr_any)F<1> : i == 2 ? (hr_any)F<2> : (hr_any)F<3>)
+    switch (reg)
+    {
+    case 0: return HR_PICK(hr_oom);
+    case 1: return HR_PICK(hr_bad);
+    case 2: return HR_PICK(hr_leak);
+    case 3: return HR_PICK(hr_ptr);
+    default: return HR_PICK(hr_ovf);
+    }
+#undef HR_PICK
+}
+static hr_any hr_set(int reg, hr_any h)
+{
+    switch (reg)
+    {
+    case 0: return (hr_any)fm::out_of_memory::set_handler((fm::out_of_memory::handler)h);
+    case 1: return (hr_any)fm::bad_allocation_size::set_handler((fm::bad_allocation_size::handler)h);
+    case 2: return (hr_any)fm::set_leak_handler((fm::leak_handler)h);
+    case 3: return (hr_any)fm::set_invalid_pointer_handler((fm::invalid_pointer_handler)h);
+    default: return (hr_any)fm::set_buffer_overflow_handler((fm::buffer_overflow_handler)h);
+    }
+}
+struct hr_world : ll_world_base
+{
+    hr_any prev[4] = {nullptr, nullptr, nullptr, nullptr};
+    int    reg     = 0;
+    explicit hr_world(const program& p)
+    {
+        prog = p;
+        G    = &o;
+        reg  = p[0][0] - 10;
+        g_new_handler.store(ll_freeing_handler);
+        hr_set(reg, hr_handler(reg, 0)); // base handler
+    }
+    ~hr_world() override {}
+    std::ptrdiff_t balance() override
+    {
+        return 0;
+    }
+    sched::u64 state_hash() override
+    {
+        sched::u64 h = 1469598103934665603ull;
+        for (auto p : prev)
+            h = (h ^ sched::u64(reinterpret_cast<std::uintptr_t>(p))) * 1099511628211ull;
+        return h;
+    }
+    void run_thread(int id) override
+    {
+        for (int op : prog[std::size_t(id)])
+            prev[id] = hr_set(op - 10, hr_handler(op - 10, id + 1));
+    }
+    void extra_judge(std::vector<violation>& v) override
+    {
+        int    n       = int(prog.size());
+        hr_any current = hr_set(reg, hr_handler(reg, 0));
+        int    seen[4] = {0, 0, 0, 0};
+        auto   count   = [&](hr_any h) {
+            for (int i = 0; i <= n; ++i)
+                if (h == hr_handler(reg, i))
+                    ++seen[i];
+        };
+        for (int t = 0; t < n; ++t)
+            count(prev[t]);
+        count(current);
+        for (int i = 0; i <= n; ++i)
+            if (seen[i] != 1)
+            {
+                v.push_back({std::string("handler-registration-lost/") + HR_NAMES[reg],
+                             fmt("%d threads registered %d different %s handlers on top of a base handler: handler #%d (0 = base) was handed back / is "
+                                 "installed %d time(s) instead of exactly once: a registration was lost (the registry is not updated with one atomic exchange)",
+                                 n, n, HR_NAMES[reg], i, seen[i])});
+                break;
+            }
+    }
+};
+static std::vector<program> hr_programs()
+{
+    std::vector<program> r;
+    for (int reg = 0; reg < 5; ++reg)
+    {
+        r.push_back({{10 + reg}, {10 + reg}});
+        r.push_back({{10 + reg}, {10 + reg}, {10 + reg}});
+    }
+    return r;
+}
+
+static const char* const LL_KINDS[] = {"heap_allocator", "malloc_allocator", "new_allocator", "virtual_memory_allocator", "handler_registries"};
 static ll_world_base* make_ll(const std::string& kind, const program& p)
 {
+    if (kind == LL_KINDS[4])
+        return new hr_world(p);
     if (kind == LL_KINDS[0])
         return new ll_world<ll_heap>(p);
     if (kind == LL_KINDS[1])
@@ -1308,7 +1413,8 @@ static std::string ll_prog_names(const program& p)
     {
         jarr b;
         for (int o : t)
-            b.str(o == 2 ? "own object, operator new fails once, a new-handler that frees memory is installed: allocate_node;deallocate_node"
+            b.str(o >= 10 ? std::string("register a new ") + HR_NAMES[o - 10] + " handler"
+                  : o == 2 ? "own object, operator new fails once, a new-handler that frees memory is installed: allocate_node;deallocate_node"
                   : o      ? "shared thread_safe_allocator: allocate_node;deallocate_node"
                            : "own object: allocate_node;deallocate_node");
         a.raw(b.done());
@@ -1334,6 +1440,8 @@ static void judge_ll(const std::string& kind, ll_world_base& w, const sched::run
     if (r.complete && g_new_handler.load() != ll_freeing_handler)
         v.push_back({"new-handler-lost", fmt("the installed new-handler was replaced (%s) by concurrent requests to %s: the process-wide handler is "
                                              "shared state that a stateless allocator must not modify", g_new_handler.load() ? "by another" : "uninstalled", kind.c_str())});
+    if (r.complete && !w.o.aborted)
+        w.extra_judge(v);
     if (r.complete && !w.o.aborted)
     {
         std::ptrdiff_t d = w.balance() - w.start;
@@ -1449,6 +1557,8 @@ static int ll_main(const argmap& a)
     for (const char* kind : LL_KINDS)
     {
         auto progs = progs0;
+        if (std::string(kind) == "handler_registries")
+            progs = hr_programs();
         if (std::string(kind) == "new_allocator")
             for (auto& q : ll_programs_new_failure())
                 progs.push_back(q);
